@@ -310,15 +310,45 @@ def r20_5(ctx):
                 "`%s` reads the boxed future through `&self`: with `unsafe impl Sync` two threads could poll a !Sync future" % (bad[0].path if bad else ""))
     from . import autotrait
     autotrait.check_unsafe_marker_impls(ctx, "R20.5")
-    w = F.fn(IM, "vector::subscriber::assert_make_future_send")
-    if w is None:
-        ctx.violated("R20.5", None, "send-impl:witness", None, "the in-crate witness `assert_make_future_send` backing `unsafe impl Send for ReusableBoxRecvFuture` is gone")
+    # by role, not by name: the *maker* is the local async fn whose future the wrapper's own methods put into the reusable box; the
+    # *witness* is a function that hands a call of the maker to a local Send assertion (a generic fn bounded by Send)
+    makers = []
+    for f in F.find(crate=IM):
+        if not f.built or not (f.raw.get("self_ty") or "").startswith("vector::subscriber::ReusableBoxRecvFuture<"):
+            continue
+        for blk, t in f.built.calls(r"ReusableBoxFuture::<.*>::(new|set|try_set)$"):
+            e = f.built.expr_of_op(t["args"][-1])
+            for c_ in find_all(e, lambda y: y[0] == "call" and isinstance(y[1], str)):
+                g = F.fns.get(IM + "::" + (c_[2] or c_[1])) or F.fns.get(IM + "::" + c_[1])
+                if g is not None and g.raw.get("is_async") and g not in makers:
+                    makers.append(g)
+    def is_maker_call(y):
+        if y[0] != "call" or not isinstance(y[1], str):
+            return False
+        g = F.fns.get(IM + "::" + (y[2] or y[1])) or F.fns.get(IM + "::" + y[1])
+        return g is not None and any(g is m_ for m_ in makers)
+    def is_send_assertion(h):
+        if h is None:
+            return False
+        if h.name and re.search(r"assert.*send|is_send|require_send", h.name, re.I):
+            return True
+        return any(re.search(r": std::marker::Send$", str(bd)) for bd in (h.raw.get("bounds") or []))
+    w, wcall = None, None
+    for f in F.find(crate=IM):
+        if not f.built:
+            continue
+        for blk, t in f.built.calls():
+            h = F.local_callee(f, t)
+            if is_send_assertion(h) and t["args"] and contains(f.built.expr_of_op(t["args"][0]), is_maker_call):
+                w, wcall = f, t
+    if not makers:
+        ctx.missing("R20.5", "the async fn whose future ReusableBoxRecvFuture boxes (role: called in the argument of ReusableBoxFuture::new / set inside the wrapper's methods)")
+    elif w is None:
+        ctx.violated("R20.5", None, "send-impl:witness", None, "no in-crate witness hands `%s(..)` to a Send assertion: nothing backs `unsafe impl Send for ReusableBoxRecvFuture` any more" % makers[0].name)
     else:
         b = w.built
-        ok = any(F.local_callee(w, t) is not None and F.local_callee(w, t).name == "assert_send" and contains(b.expr_of_op(t["args"][0]), lambda x: x[0] == "call" and ecall_matches(x, r"make_recv_future$")) for _, t in b.calls())
-        ctx.verdict(ok, "R20.5", w, "send-impl:witness", w.loc(), "assert_send(make_recv_future(receiver)) type-checks for the witness payload",
-                    "the witness no longer asserts that make_recv_future's future is Send")
-        # the witness must be about the type the wrapper really stores: make_recv_future instantiated with the message type of the
+        ctx.holds("R20.5", w, "send-impl:witness", w.loc(), "a Send assertion is applied to `%s(receiver)` and type-checks for the witness payload" % makers[0].name)
+        # the witness must be about the type the wrapper really stores: the maker instantiated with the message type of the
         # `inner` field (BroadcastMessage<_>), not with the bare element type
         a = F.adt(IM, "vector::subscriber::ReusableBoxRecvFuture")
         stored = None
@@ -327,12 +357,15 @@ def r20_5(ctx):
                 m_ = re.search(r"broadcast::Receiver<([\w:]+)<", fd["ty"])
                 if m_:
                     stored = m_.group(1)
-        inst = [g_ for _, t in b.calls(r"make_recv_future$") for g_ in (t.get("gargs") or [])]
+        inst = []
+        for _, t in b.calls():
+            g = F.local_callee(w, t)
+            if g is not None and any(g is m_ for m_ in makers):
+                inst += [g_ for g_ in (t.get("gargs") or [])]
         if stored and inst:
             same = all(g_.startswith(stored + "<") for g_ in inst)
-            ctx.verdict(same, "R20.5", w, "send-impl:witness-instantiates-the-stored-type", w.loc(), "the witness instantiates make_recv_future with `%s<_>`, the message type the wrapper stores" % stored,
-                        "the witness instantiates make_recv_future with `%s`, but the wrapper stores a future over `%s<T>`: whatever the witness proves says nothing about the Send-ness of what is actually boxed" % (inst[0], stored))
-
+            ctx.verdict(same, "R20.5", w, "send-impl:witness-instantiates-the-stored-type", w.loc(), "the witness instantiates `%s` with `%s<_>`, the message type the wrapper stores" % (makers[0].name, stored),
+                        "the witness instantiates `%s` with `%s`, but the wrapper stores a future over `%s<T>`: whatever the witness proves says nothing about the Send-ness of what is actually boxed" % (makers[0].name, inst[0], stored))
 
 def r20_7(ctx):
     F = ctx.facts
